@@ -433,6 +433,16 @@ func goTcSubst(a []string) string {
 		o := ed25519.NewKeyFromSeed(randBytes(r, 32))
 		sig := ed25519.Sign(o, refMessage(w.id.Workchain, w.id.Address[:], domain, now.Unix(), payload))
 		p.Proof.Signature = base64.StdEncoding.EncodeToString(sig)
+	case "impersonate":
+		// the victim's address with the attacker's own state-init and a signature by the attacker's key: the
+		// state-init does not hash to the address, so the attacker's key must not be taken from it
+		if a[4] == "key" {
+			return "ok"
+		}
+		o := mkWallet(w.ver, h.Hex(randBytes(r, 32)))
+		p.Proof.StateInit = o.siB64
+		sig := ed25519.Sign(o.priv, refMessage(w.id.Workchain, w.id.Address[:], domain, now.Unix(), payload))
+		p.Proof.Signature = base64.StdEncoding.EncodeToString(sig)
 	case "stateinit":
 		if a[4] == "key" {
 			return "ok" // with a working getter the state-init is not consulted
@@ -966,6 +976,10 @@ func genC19(g *h.G) {
 					} else {
 						c.stateInit = "bocerr"
 					}
+				case 19, 20: // impersonation: the victim's address, the attacker's state-init and the attacker's signature
+					c.getter = "fail:err"
+					c.stateInit = oTable
+					c.sig = ed25519.Sign(o.priv, refMessage(w.id.Workchain, w.id.Address[:], domain, ts, payload))
 				default: // honest again with other option mixes
 					c.domain = domain
 				}
@@ -974,11 +988,16 @@ func genC19(g *h.G) {
 			}
 			// ParseStateInit directly
 			g.Emit("tc.parse", known, siTable)
+			if g.Rng.Intn(4) == 0 {
+				d := w.si.Data.Value.Value
+				g.Emit("tc.parse", known, cellTable(rawStateInit(wallet.GetCodeByVer(wallet.V3R2Lockup), &d, false)))
+				g.Emit("tc.parse", known, cellTable(rawStateInit(nil, &d, false)))
+			}
 			if g.Rng.Intn(3) == 0 {
 				g.Emit("tc.parse", known, siTable+"/"+oTable)
 			}
 			// direct oracles
-			field := []string{"address", "workchain", "domain", "timestamp", "payload", "sigflip", "otherkey", "stateinit"}[g.Rng.Intn(8)]
+			field := []string{"address", "workchain", "domain", "timestamp", "payload", "sigflip", "otherkey", "stateinit", "impersonate", "impersonate"}[g.Rng.Intn(10)]
 			g.Emit("go.tc.subst", fmt.Sprint(int(ver)), seed, field, fmt.Sprint(g.Rng.Intn(1<<30)), []string{"key", "fail:err"}[g.Rng.Intn(2)])
 		}
 		for _, v := range []string{"nocode", "nodata", "neither", "shortdata", "unknowncode", "splitdepth", "emptycell", "multiroot", "garbage", "notbase64"} {
